@@ -159,7 +159,7 @@ Section Pieces.
     combine (seq 0 u_ncons) (combine (zip5 u_acb0 u_acanc0 u_ainv0 u_ccanc0 u_adec0) (combine (combine u_ckind u_cref) (combine u_ccanc (po_cons p)))).
   Definition u_judge (row : nat * ((bool * bool * bool * bool * option (N * bool)) * ((N * nat) * (bool * (N * N * N * N * N * N)))))
     : bool * bool * bool * option (N * bool) * list (nat * nat) :=
-    let '(i, ((acb, acanc, ainv, ccb, adec), ((k, r), (ccn, (code, v, _, h, _, _))))) := row in
+    let '(i, ((acb, acanc, ainv, ccb, adec), ((k, r), (ccn, (code, v, _, h, _, fp))))) := row in
     if negb (N.eqb k 2) then (false, false, false, None, [])
     else
       let cbnow := N.eqb code 6 in
@@ -174,7 +174,7 @@ Section Pieces.
       let adec' := if decnow then Some (expected, fromcb) else adec in
       let decided' := match adec' with Some _ => true | None => false end in
       let c4 := fails 10 4 (negb started || match u_cur with Some (g, e0) => N.eqb e0 0 && N.eqb v (u_vofe g) | None => false end) in
-      let c5 := fails 10 5 (negb (cbnow && inv') || nz h) in
+      let c5 := fails 10 5 (negb (cbnow && inv' && negb (N.eqb fp 1)) || nz h) in
       let c6 := fails 10 6 (negb (decnow && mine && negb ccb) || negb ainv || nz u_cur_err) in
       let c6r := fails 10 6 (match adec' with Some (x, true) => negb (N.eqb code 3) || N.eqb v x | _ => true end) in
       let c6q := fails 10 6 (negb (u_quiet && negb decided' && negb ccn && match u_cur with Some (_, e0) => N.eqb e0 0 | None => false end) || cbnow) in
